@@ -110,9 +110,10 @@ def show(t):
     if k == "index":
         return "%s[%s]" % (show(t[1]), show(t[2]))
     if k == "var":
-        return "%s@%s" % (t[2] or "_%d" % t[1], t[3])
+        return "%s@%s" % (t[2] or "_%s" % (t[1] if not isinstance(t[1], tuple) else t[1][-1]), t[3])
     if k == "loopvar":
-        return "%s~L%d" % (t[3] or "_%d" % t[2], t[1])
+        # (re-tagged variables of an inlined helper carry a tuple instead of a plain header id)
+        return "%s~L%s" % (t[3] or "_%s" % (t[2],), t[1] if not isinstance(t[1], tuple) else "i")
     if k == "in":
         return "(%s in %s)" % (show(t[1]), show(t[2]))
     if k == "eq":
@@ -1449,7 +1450,13 @@ class Walker:
             evs2.append(Ev("enter", n, name, args, span=t["span"]["line"]))
             feasible = True
             for ce in cp.events:
-                ne = Ev(ce.kind, n, ce.a, ce.b, ce.c, ce.d, ce.span)
+                kind = ce.kind
+                if kind in ("loop", "loopexit"):
+                    kind = "inl-" + kind      # a loop of the callee: its header is not a block of the caller
+                ne = Ev(kind, n, ce.a, ce.b, ce.c, ce.d, ce.span)
+                if kind.startswith("inl-"):
+                    evs2.append(ne)
+                    continue
                 for fld in ("a", "b", "c", "d"):
                     v = getattr(ne, fld)
                     if isinstance(v, tuple):
